@@ -15,7 +15,7 @@ CHECK_RE = re.compile(
     r"^Check (\d+): ([^\n]+?)\s*\n\s+- Status: (\w+)\s*\n\s+- Description: \"(.*?)\"\s*\n(?:\s+- Location: (.*?)\n)?",
     re.M | re.S,
 )
-TAG_RE = re.compile(r"^C\d\d")
+TAG_RE = re.compile(r"^C\d\d[^:]*:")
 HARNESS_RE = re.compile(r"^Checking harness (\S+?)\.\.\.\s*$", re.M)
 
 
@@ -113,9 +113,16 @@ def parse(text, harnesses):
         if m:
             r["solver_s"] = sum(float(x) for x in m)
         r["stubs"] = re.findall(r"- Stub: (.*)", seg)
-        pb = re.search(r"Concrete playback unit test for .*?```\n(.*?)```", seg, re.S)
-        if pb:
-            r["playback_test"] = pb.group(1)
+        # one playback test per failing assertion and per satisfied cover: keep them by description
+        pbs = []
+        for pb in re.finditer(r"Concrete playback unit test for .*?```\n(.*?)```", seg, re.S):
+            src = pb.group(1)
+            m2 = re.search(r"/// Check for `([^`]*)`: \"(.*?)\"\s*\n", src, re.S)
+            pbs.append({"kind": m2.group(1) if m2 else "", "description": (m2.group(2) if m2 else "").strip().strip('"'), "src": src})
+        if pbs:
+            r["playback_tests"] = pbs
+            non_cover = [x for x in pbs if x["kind"] != "cover"]
+            r["playback_test"] = (non_cover or pbs)[0]["src"]
         if verdict == "SUCCESSFUL":
             r["status"] = "success"
         elif verdict == "FAILED":
